@@ -11,6 +11,9 @@ the extracted model Mlk (coq/Model/Lk.v).
                         GC pass, tick) put where a thread went through a WINDOW yield point (W labels: a call has just returned,
                         only thread-local work follows until the next model step); run with the windows parking; oracle on the
                         real trace, and the model (it has the same items there) is compared as well
+  additional acquisitions  every mutex acquisition found by text carries a site yield (anchors.json "acquisitions"); one that does not
+                        belong to the model step the thread is in is a window W<Recv.Func>#<n>; when such windows (or shape sentinels)
+                        were seen, every schedule is run again with them parking until the thread's next `run` item (ids "x:...")
   run_property(ctx, prop, scenarios=None, tier=None)
 
     python3 -m lib.schedtie [--tier quick|thorough] [--prop C02] [--seed N] [--scenario id,...] [--replay file.json]
@@ -51,6 +54,9 @@ T2_ASSUMPTIONS = [
     "T2: a lockGc pass runs in a goroutine of its own with a yield point before every shard.Lock()/RLock(): one 'gcrun' item = the "
     "critical section of ONE shard = IGc of every mapped name of that shard (FNV-1 32 of the name mod the shard count); the other "
     "threads' steps interleave between the shards; scenarios with 1, 2 and 16 shards",
+    "T2: every mutex acquisition found by text in lock/manager.go, lock/lock.go and x/sync semaphore.go is checked at run time against "
+    "the acquisitions the model's step comprises (anchors.json acquisitions.allowed); an additional one is exhibited with the other "
+    "threads' steps scheduled in front of it; critical sections that take no mutex found by text (atomics, channels) are not seen this way",
     "T2 exhibit runs: at a window yield point (after sw.Acquire / sw.TryAcquire / getLock returned) the thread does only thread-local "
     "work until its next model step, so an asynchronous item put there is the same model item one step earlier or later; the "
     "exhibit runs put context ends, GC passes and ticks there and judge the REAL trace",
@@ -103,6 +109,13 @@ def build(ctx):
         ins = dict(overlay={}, replaces={}, placed=[], missing=[dict(id="*", label="*", file="*", why="instrumenter failed: %r" % ex)], sentinels=[], log=[])
     ov = work / "overlay.json"
     ov.write_text(json.dumps({"Replace": ins["overlay"]}))
+    # which mutex acquisitions belong to which model step (everything else the harness meets is an additional acquisition)
+    try:
+        acq = json.loads(ANCHORS.read_text()).get("acquisitions") or {}
+    except Exception:
+        acq = {}
+    (work / "acq_table.json").write_text(json.dumps(acq.get("allowed") or {}))
+    ins["acq_concerns"] = acq.get("concerns") or {}
     hdir = vcheck.harness_dir(ctx, extra_replace=ins["replaces"], name="harness-t2")
     test_bin = work / "sched.test"
     rc, out = vcheck.go_test_build(ctx, hdir, "./sched", test_bin, overlay=ov, timeout=600)
@@ -269,7 +282,8 @@ def run_schedules(ctx, b, sched_file, name="run", procs=8, timeout=300, watchdog
         for j in pending:
             env = dict(os.environ)
             env.update({"SCHED_IN": str(j["dir"] / "in.txt"), "SCHED_OUT": str(j["dir"]), "SCHED_SKIP": str(j["skip"]),
-                        "SCHED_WATCHDOG_MS": str(watchdog_ms), "SCHED_XPARK": xpark_mode(xpark)})
+                        "SCHED_WATCHDOG_MS": str(watchdog_ms), "SCHED_XPARK": xpark_mode(xpark),
+                        "SCHED_ACQ_TABLE": str(b["work"] / "acq_table.json")})
             p = subprocess.Popen([str(b["test_bin"]), "-test.run", "TestSched", "-test.timeout", "%ds" % timeout], cwd=j["dir"], env=env,
                                  stdout=subprocess.PIPE, stderr=subprocess.STDOUT, text=True, errors="replace")
             running.append((p, j))
@@ -611,6 +625,14 @@ def oracle_C02(run, hist=None):
     gc_allowed = run_has_gc(run) or run_has(run, "shutdown")
     shutdown = run_has(run, "shutdown")
     crashed = any(b[3][0] for b in run.blocks) or any(k == "panic" for _, k, _ in run.epi)
+    # conservation: the semaphore's own guard fired, more units were released than were held
+    for k, thr, _tab, _cr in run.blocks:
+        for tid, st in thr.items():
+            if st[0] == "Z" and len(st) > 1 and "released more than held" in unhx(st[1]):
+                bad.append((k, "t%d released a unit that was not held (panic: %s): capacity was duplicated" % (tid, unhx(st[1])), False))
+    for idx, kind, f in run.epi:
+        if kind == "panic" and len(f) > 1 and "released more than held" in unhx(f[1]):
+            bad.append((idx, "t%s released a unit that was not held (panic: %s): capacity was duplicated" % (f[0], unhx(f[1])), False))
     if not crashed:
         if not linearizable(hist, gc_allowed, shutdown):
             shape = linearizable(hist, gc_allowed, shutdown, transient_ok=True)
@@ -802,7 +824,7 @@ def gen_exhibits(runs, rng, budget):
         for n_, (k, tid, label) in enumerate(run.passages):
             passages[label] = passages.get(label, 0) + 1
             at = pos.get(k)
-            if at is None:
+            if at is None or tid >= GC_TID0:
                 continue
             kinds = []
             op = calls.get(tid)
@@ -984,14 +1006,21 @@ def run_property(ctx, prop, scenarios=None, tier=None, procs=8):
             r.exhibit = {"base": m_.get("base"), "window": m_.get("label"), "inserted": m_.get("kind"), "after_item": m_.get("at")}
         for k, v in e2["reached"].items():
             reached[k] = reached.get(k, 0) + v
-    # shape sentinels placed (the code's shape deviates): everything a second time with the sentinels parking (oracle only)
-    if ins["sentinels"]:
+    # shape sentinels placed, or a model step went through ADDITIONAL mutex acquisitions (W<func>#<n> passages: the step is more
+    # than one critical section in the code): everything a second time with those yield points parking until the thread's next
+    # `run` item, so that the other threads' ordinary steps come in between (oracle only: the schedule is not the model's)
+    additional = {}
+    for r_ in runs.values():
+        for _k, _t, lab in r_.passages:
+            if "#" in lab:
+                additional[lab] = additional.get(lab, 0) + 1
+    if ins["sentinels"] or additional:
         files = [sf] + ([b["work"] / ("corpus-%s.txt" % prop)] if corpus else [])
         for n_, f_ in enumerate(files):
             e3 = execute(ctx, b, f_, "srun-%s-%d" % (prop, n_), procs=procs, timeout=300 if tier == "quick" else 3000, xpark=True)
             for k, v in e3["runs"].items():
                 v.sid = "x:" + k
-                v.exhibit = {"base": k, "window": None, "inserted": "shape sentinels parking", "after_item": None}
+                v.exhibit = {"base": k, "window": None, "inserted": "shape sentinels / additional mutex acquisitions parking until the thread's next run item", "after_item": None}
                 xruns["x:" + k] = v
             xchk.update({"x:" + k: v for k, v in e3["chk"].items()})
     j2 = judge(prop, {k: v for k, v in xruns.items() if not k.startswith("x:")}, xchk, xfail)
@@ -1003,7 +1032,8 @@ def run_property(ctx, prop, scenarios=None, tier=None, procs=8):
     runs.update(xruns); chk.update(xchk); failures += xfail
     tie["exhibit"] = {
         "runs": len(xruns), "window_exhibit_runs": sum(1 for k in xruns if not k.startswith("x:")),
-        "shape_sentinel_reruns": sum(1 for k in xruns if k.startswith("x:")), "window_yield_points_placed": ins.get("windows", []), "gc_yield_points_placed": ins.get("multi", {}),
+        "shape_sentinel_reruns": sum(1 for k in xruns if k.startswith("x:")), "additional_mutex_acquisitions_seen": additional,
+        "mutex_acquisition_sites_instrumented": len(ins.get("acq_sites", [])), "window_yield_points_placed": ins.get("windows", []), "gc_yield_points_placed": ins.get("multi", {}),
         "window_passages_seen_in_comparison_runs": xstats["window_passages_seen"], "insertion_candidates": xstats["candidates"],
         "inserted_by_window_and_kind": xstats["inserted"], "gc_overrun_base_schedules": xstats["gc_overrun_base_schedules"],
         "gc_overrun_variants": xstats["gc_overrun_variants"],
@@ -1046,6 +1076,7 @@ def run_property(ctx, prop, scenarios=None, tier=None, procs=8):
                           name="t2_correspondence_%s.json" % sid.replace("#", "_").replace("?", "x").replace(":", "_"), no_failing_input=True)
         else:
             sent = [sid_ for sid_ in ins["sentinels"] if prop in ins.get("sentinel_concerns", {}).get(sid_, [prop])]
+            sent += [lab for lab in sorted(additional) if prop in ins.get("acq_concerns", {}).get(lab[1:].split("#")[0], [prop])]
             if missing or sent:
                 ctx.violation({"broken": "instrumentation", "unplaced_yield_points": missing, "sentinels_placed": sent, "log": ins["log"]},
                               "the code no longer has the shape the model was written against (%s); no failing real trace was found"
